@@ -1,0 +1,225 @@
+//! Verification hook (only compiled with `--cfg libp2p_verif`): thin public wrappers around the
+//! crate-private routing table (`KBucketsTable<KeyBytes, ()>`), `BucketIndex` and
+//! `ClosestBucketsIter`. The wrappers only forward to the production code; `peek_*` are
+//! read-only projections of private state used to de-duplicate explored states.
+
+use std::{num::NonZeroUsize, time::Duration};
+
+use super::*;
+
+pub use super::{Distance, KeyBytes, NodeStatus, U256};
+
+/// `BucketIndex::new(d).map(|i| i.get())`
+pub fn bucket_index(d: &Distance) -> Option<usize> {
+    BucketIndex::new(d).map(|i| i.get())
+}
+
+/// `BucketIndex(i).range()`
+pub fn bucket_range(i: usize) -> (Distance, Distance) {
+    BucketIndex(i).range()
+}
+
+/// The bucket visiting order of `ClosestBucketsIter::new(d)`.
+pub fn closest_buckets_order(d: Distance) -> Vec<usize> {
+    ClosestBucketsIter::new(d).map(|i| i.get()).collect()
+}
+
+/// What `KBucketsTable::entry` returned.
+#[derive(Debug, Clone, Copy, PartialEq, Eq)]
+pub enum EntryKind {
+    /// `entry()` returned `None` (the local key)
+    Local,
+    Present(NodeStatus),
+    Pending(NodeStatus),
+    Absent,
+}
+
+/// Mirror of `InsertResult<KeyBytes>`.
+#[derive(Debug, Clone, PartialEq, Eq)]
+pub enum Inserted {
+    Inserted,
+    Pending { disconnected: KeyBytes },
+    Full,
+}
+
+/// One bucket as seen through `KBucketRef`.
+#[derive(Debug, Clone, PartialEq, Eq)]
+pub struct BucketView {
+    /// position of the bucket in `KBucketsTable::iter()` (or `usize::MAX` for `bucket()`)
+    pub position: usize,
+    pub range: (Distance, Distance),
+    pub num_entries: usize,
+    pub is_empty: bool,
+    pub has_pending: bool,
+    pub entries: Vec<(KeyBytes, NodeStatus)>,
+}
+
+/// `KBucketsTable<KeyBytes, ()>`
+#[derive(Debug, Clone)]
+pub struct Table(KBucketsTable<KeyBytes, ()>);
+
+impl Table {
+    pub fn new(local_key: KeyBytes, bucket_size: usize, pending_timeout: Duration) -> Self {
+        let mut config = KBucketConfig::default();
+        config.set_bucket_size(NonZeroUsize::new(bucket_size).expect("bucket_size > 0"));
+        config.set_pending_timeout(pending_timeout);
+        Table(KBucketsTable::new(local_key, config))
+    }
+
+    pub fn local_key(&self) -> KeyBytes {
+        *self.0.local_key()
+    }
+
+    /// `entry(key)` classified.
+    pub fn entry_kind(&mut self, key: &KeyBytes) -> EntryKind {
+        match self.0.entry(key) {
+            None => EntryKind::Local,
+            Some(Entry::Present(_, s)) => EntryKind::Present(s),
+            Some(Entry::Pending(_, s)) => EntryKind::Pending(s),
+            Some(Entry::Absent(_)) => EntryKind::Absent,
+        }
+    }
+
+    /// `entry(key)`; if absent, `AbsentEntry::insert((), status)`. `Err(kind)` when not absent.
+    pub fn insert(&mut self, key: &KeyBytes, status: NodeStatus) -> Result<Inserted, EntryKind> {
+        match self.0.entry(key) {
+            None => Err(EntryKind::Local),
+            Some(Entry::Present(_, s)) => Err(EntryKind::Present(s)),
+            Some(Entry::Pending(_, s)) => Err(EntryKind::Pending(s)),
+            Some(Entry::Absent(e)) => Ok(match e.insert((), status) {
+                InsertResult::Inserted => Inserted::Inserted,
+                InsertResult::Pending { disconnected } => Inserted::Pending { disconnected },
+                InsertResult::Full => Inserted::Full,
+            }),
+        }
+    }
+
+    /// `entry(key)`; `PresentEntry::update` / `PendingEntry::update`. Returns the kind found.
+    pub fn update(&mut self, key: &KeyBytes, status: NodeStatus) -> EntryKind {
+        match self.0.entry(key) {
+            None => EntryKind::Local,
+            Some(Entry::Present(mut e, s)) => {
+                e.update(status);
+                EntryKind::Present(s)
+            }
+            Some(Entry::Pending(e, s)) => {
+                let _ = e.update(status);
+                EntryKind::Pending(s)
+            }
+            Some(Entry::Absent(_)) => EntryKind::Absent,
+        }
+    }
+
+    /// `entry(key)`; `PresentEntry::remove` / `PendingEntry::remove`. Returns the kind found
+    /// and the removed view (key, status).
+    pub fn remove(&mut self, key: &KeyBytes) -> (EntryKind, Option<(KeyBytes, NodeStatus)>) {
+        match self.0.entry(key) {
+            None => (EntryKind::Local, None),
+            Some(Entry::Present(e, s)) => {
+                let v = e.remove();
+                (EntryKind::Present(s), Some((v.node.key, v.status)))
+            }
+            Some(Entry::Pending(e, s)) => {
+                let v = e.remove();
+                (EntryKind::Pending(s), Some((v.node.key, v.status)))
+            }
+            Some(Entry::Absent(_)) => (EntryKind::Absent, None),
+        }
+    }
+
+    /// `take_applied_pending()` as (inserted key, evicted key)
+    pub fn take_applied_pending(&mut self) -> Option<(KeyBytes, Option<KeyBytes>)> {
+        self.0
+            .take_applied_pending()
+            .map(|a| (a.inserted.key, a.evicted.map(|n| n.key)))
+    }
+
+    fn view(position: usize, b: &KBucketRef<'_, KeyBytes, ()>) -> BucketView {
+        BucketView {
+            position,
+            range: b.range(),
+            num_entries: b.num_entries(),
+            is_empty: b.is_empty(),
+            has_pending: b.has_pending(),
+            entries: b.iter().map(|e| (*e.node.key, e.status)).collect(),
+        }
+    }
+
+    /// `iter()` (applies pending entries of every bucket); all 256 buckets when `all`, else
+    /// only the non-empty ones.
+    pub fn iter_buckets(&mut self, all: bool) -> Vec<BucketView> {
+        self.0
+            .iter()
+            .enumerate()
+            .filter_map(|(i, b)| {
+                if all || !b.is_empty() || b.has_pending() {
+                    Some(Self::view(i, &b))
+                } else {
+                    None
+                }
+            })
+            .collect()
+    }
+
+    /// `bucket(key)` (applies the pending entry of that bucket)
+    pub fn bucket(&mut self, key: &KeyBytes) -> Option<BucketView> {
+        self.0.bucket(key).map(|b| Self::view(usize::MAX, &b))
+    }
+
+    /// `closest_keys(target).collect()`
+    pub fn closest_keys(&mut self, target: &KeyBytes) -> Vec<KeyBytes> {
+        self.0.closest_keys(target).collect()
+    }
+
+    /// `closest(target)` as (key, status)
+    pub fn closest(&mut self, target: &KeyBytes) -> Vec<(KeyBytes, NodeStatus)> {
+        self.0
+            .closest(target)
+            .map(|e| (e.node.key, e.status))
+            .collect()
+    }
+
+    pub fn count_nodes_between(&mut self, target: &KeyBytes) -> usize {
+        self.0.count_nodes_between(target)
+    }
+
+    /// Read-only: `Debug` rendering of bucket `i` (nodes, first_connected_pos, pending node
+    /// with its deadline) without applying anything.
+    pub fn peek_bucket_debug(&self, i: usize) -> String {
+        format!("{:?}", self.0.buckets[i])
+    }
+
+    /// Read-only: (key, status) of the entries of bucket `i` and (key, status, is_ready) of its
+    /// pending node, without applying anything.
+    #[allow(clippy::type_complexity)]
+    pub fn peek_bucket(
+        &self,
+        i: usize,
+    ) -> (
+        Vec<(KeyBytes, NodeStatus)>,
+        Option<(KeyBytes, NodeStatus, bool)>,
+    ) {
+        let b = &self.0.buckets[i];
+        let entries = b.iter().map(|(n, s)| (n.key, s)).collect();
+        let pending = b
+            .pending()
+            .map(|p| (p.clone().into_node().key, p.status(), p.is_ready()));
+        (entries, pending)
+    }
+
+    /// Read-only: indices of buckets that hold an entry or a pending node.
+    pub fn peek_used_buckets(&self) -> Vec<usize> {
+        self.0
+            .buckets
+            .iter()
+            .enumerate()
+            .filter(|(_, b)| b.num_entries() > 0 || b.pending().is_some())
+            .map(|(i, _)| i)
+            .collect()
+    }
+
+    /// Read-only: number of queued `AppliedPending` results.
+    pub fn peek_applied_pending_len(&self) -> usize {
+        self.0.applied_pending.len()
+    }
+}
